@@ -83,6 +83,13 @@ def gen_atoms(rnd: random.Random, n: int, cell=None, arrays: float = 0.5, uid: b
         if "fixrot" in constraints:
             cons.append({"type": "FixRot"})
             spec["pbc"] = False
+        if "hookean" in constraints:
+            # a restraint that ADDS to the potential energy (ASE: adjust_potential_energy / adjust_forces): one atom
+            # tethered to a point near its position
+            i = rnd.randrange(n)
+            p = spec["positions"][i]
+            cons.append({"type": "Hookean", "a1": i, "point": [round(p[j] + rnd.uniform(-0.8, 0.8), 4) for j in range(3)],
+                         "k": rfloat(rnd, 0.5, 5.0, 3), "rt": rfloat(rnd, 0.0, 0.6, 3)})
     spec["constraints"] = cons
     return spec
 
